@@ -221,11 +221,24 @@ class InitFlow:
                 for a in args:
                     # a pointer variable that is reassigned in a loop (ping-pong buffers): every object it may designate gets
                     # the benefit of the doubt -- the callee may write it
+                    cands_ = []
                     if isinstance(a, tuple) and a and a[0] == "var" and len(a) > 2:
-                        for obj_ in self._valsets.get(a[2], ()):
+                        cands_ = list(self._valsets.get(a[2], ()))
+                    elif isinstance(a, tuple) and a and a[0] == "cond":
+                        stack_ = [a]
+                        while stack_:
+                            t_ = stack_.pop()
+                            if t_[0] == "cond":
+                                stack_ += [t_[2], t_[3]]
+                            elif t_[0] == "var" and len(t_) > 2:
+                                cands_ += list(self._valsets.get(t_[2], ()))
+                            else:
+                                cands_.append(t_)
+                    if cands_:
+                        for obj_ in cands_:
                             if obj_ in roots:
                                 self._event(roots[obj_], (), "W", first, defined, local_events, x["l"],
-                                            "through pointer variable %s" % a[1], prefix=True)
+                                            "through pointer expression %s" % (sym.show(a)[:40],), prefix=True)
                 for a in args:
                     # scalar uses inside argument expressions (a[i] passed by value)
                     if a is not None and not self._is_pointer_arg(a):
@@ -388,9 +401,16 @@ class InitFlow:
     def _pointer_value_sets(eff):
         """{local id: set of terms ever assigned to it}, closed under copies between locals"""
         direct = {}
+
+        def alts(t):
+            if isinstance(t, tuple) and t and t[0] == "cond":
+                return alts(t[2]) | alts(t[3])           # c ? p : q may be either
+            if isinstance(t, tuple) and t and t[0] == "cast":
+                return alts(t[2])
+            return {t}
         for x in flat(eff):
             if x["e"] == "local" and x.get("op") in ("decl", "=") and isinstance(x.get("new", x.get("val")), tuple):
-                direct.setdefault(x["id"], set()).add(x.get("new", x.get("val")))
+                direct.setdefault(x["id"], set()).update(alts(x.get("new", x.get("val"))))
         changed = True
         while changed:
             changed = False
